@@ -69,7 +69,7 @@ FACTORS = {
     "clamp": ["default", "tightmin", "maxeqstep"],
     "policy": list(POLICIES),
     "fail_mode": ["return", "raise", "alternate"],
-    "move": ["identity", "turn"],
+    "move": ["identity", "turn", "hairpin"],
 }
 
 
@@ -190,6 +190,10 @@ def move(cfg: Config, prediction, last, i):
         return prediction.copy()
     u = np.cos(1.3 * i + 0.9 * np.arange(prediction.size))
     u /= np.linalg.norm(u)
+    if cfg.levels["move"] == "hairpin" and i % 3 == 1:
+        # the corrector lands BEHIND the last member (a fold of the family / a branch jump): the secant through the last two members
+        # then turns by more than 90 degrees against the previous one; the statement still asks for the offset along that secant
+        return last - 0.6 * (prediction - last) + 0.2 * float(np.linalg.norm(prediction - last)) * u
     return prediction + 0.25 * float(np.linalg.norm(prediction - last)) * u     # displacement stays >= 0.75 |step|
 
 
@@ -427,7 +431,7 @@ def run_case(ctx, backends, cfg: Config, seq: str, tail: str, sample=False):
         exc = e
     calls = script.calls
     consumed = "".join(c[1] for c in calls)
-    cls = f"backend:{cfg.stepper}"
+    cls = f"backend:{cfg.stepper}:{cfg.levels['move']}"
     ctx.case(cls, [cfg.describe(), consumed, tail if len(consumed) > len(seq) else ""],
              nontrivial=("A" in consumed and "F" in consumed))
 
@@ -864,8 +868,8 @@ def run(ctx):
     guarded(ctx, "backend", backend_monitor, ctx)
     guarded(ctx, "end-to-end", e2e_monitor, ctx)
     ctx.require("O:contmodel reproduces hand-computed runs", 5)
-    ctx.require("backend:natural", 200)
-    ctx.require("backend:secant", 200)
+    for st_, mv_ in (("natural", "identity"), ("natural", "turn"), ("secant", "identity"), ("secant", "turn"), ("secant", "hairpin")):
+        ctx.require(f"backend:{st_}:{mv_}", 40)
     for cl in ("P:natural prediction = last member + current step in the continuation parameters",
                "P:secant prediction = last member + unit secant * |step|",
                "K:after a failed correction the step is shrink(step) clamped to [step_min, step_max]",
